@@ -140,4 +140,31 @@ var Properties = map[string]*Property{
 		Stubs:   []string{"plugin.ObjTool/ObjFile/UI are harness mocks whose answers are choice/solver variables ('all behaviours of the plug-ins, including failure at any call')", "net/url and the demangle library are interpreted from source"},
 		Outside: []string{"the symbolz HTTP exchange and its line grammar (symbolizeMapping with a post callback)", "binutils-backed ObjTool", "mode string parsing of (*Symbolizer).Symbolize", "names longer than the bound"},
 	},
+	"C17": {
+		ID: "C17",
+		Harnesses: []HarnessSpec{
+			{Pkg: "internal/report", Fn: "VerifC17Stacks", Solver: "z3", MaxDecisions: 2000, QuickTimeoutS: 200, ThoroughTimeoutS: 600,
+				What: "(*Report).Stacks (makeInitialStacks, fillPlaces) on 6 stack shapes (shared root, recursion, inlined frames, empty stack, frame without function, shared inlined location) x equal names in different files, sample values symbolic: one rooted stack per sample, frames and inlined flags faithful, values sum to the signed total, Self = sum of stacks ending at the source, Places list every containing stack exactly once at its outermost occurrence, all slices non-nil, indices in range"},
+		},
+		Outside: []string{"JSON marshalling in driver.stackView", "Display name shortening heuristics", "line/column numbers inside source identity (kept zero)"},
+	},
+	"C04": {
+		ID: "C04",
+		Harnesses: []HarnessSpec{
+			{Pkg: "internal/report", Fn: "VerifC04TextItems", Solver: "cvc5-int-oneshot", MaxDecisions: 3000, Quick: map[string]int{"c04.shapes": 3}, Thorough: map[string]int{"c04.shapes": 5}, QuickTimeoutS: 400, ThoroughTimeoutS: 1500,
+				What: "report.New/computeTotal, (*Report).newGraph = graph.New/CreateNodes/addSample, and report.TextItems on 5 stack shapes x sample_index x mean with every sample value symbolic (two sample types): node flat/cum, mean quotients, every edge weight and the report total equal the definition over samples; text items show the same numbers"},
+		},
+		Assumptions: []string{"|value| < 2^40 (sums are mathematical sums); mean divisors non-negative", "profile aggregated to function granularity (all addresses zero) so that an entry is a function"},
+		Stubs:   []string{"measurement.ScaledLabel/Label/Percentage of a symbolic value return opaque text (formatting is not the subject)"},
+		Outside: []string{"digits in the text of top/tree/dot/callgrind/traces", "granularity/noinlines/tagroot/tagleaf handling in driver.aggregate (needs the driver-level harness)", "call_tree"},
+	},
+	"C05": {
+		ID: "C05",
+		Harnesses: []HarnessSpec{
+			{Pkg: "internal/report", Fn: "VerifC05Trim", Solver: "cvc5-int-oneshot", MaxDecisions: 3000, Quick: map[string]int{"c05.shapes": 2, "c05.fractions": 2, "c05.formats": 1}, Thorough: map[string]int{"c05.shapes": 5, "c05.fractions": 3, "c05.formats": 1}, QuickTimeoutS: 500, ThoroughTimeoutS: 1700,
+				What: "(*Report).newTrimmedGraph (DiscardLowFrequencyNodes, SelectTopNodes, TrimLowFrequencyEdges, rebuild with kept set) for nodecount in {unlimited,1,2} x nodefraction/edgefraction in {0, 1/2, 1/4} x flat/cum sort, text mode, every sample value symbolic: shown entries carry their untrimmed flat/cum, nothing below the cutoff is shown, removed entries are exactly those below the cutoff or outside the top N under the active order, header figure = sum of shown flat, edges connect shown entries only, edge weights = once-per-sample sums over the stacks projected onto the shown entries, bypassing edges are residual and direct edges keep their untrimmed weight"},
+		},
+		Assumptions: []string{"|value| < 2^40", "fractions are powers of two so that float64(total)*fraction is exact; int64(float64(x)*2^k) is rewritten to integer division after the solver confirms |x| < 2^53"},
+		Outside: []string{"dot/visual mode (entropy order uses math.Log2), RemoveRedundantEdges", "call_tree trimming (TrimTree)", "tag trimming"},
+	},
 }
